@@ -364,6 +364,13 @@ class World:
             exp = M.Exp("HALF", ("C02", "C03", "C19"))
             exp.forbid |= {"001"}
             exp.shape = "half:user-without-nick"
+        elif self._mask_refuses(claim, user):
+            # an account whose mask does not match this source: refused (an ERROR line), the connection stays
+            # unregistered and keeps no hold on the nickname's later owner
+            exp = M.Exp("HALF", ("C02", "C03", "C19", "C06"))
+            exp.forbid |= {"001"}
+            exp.unspec_replies = True
+            exp.shape = "half:mask-refused"
         elif claim in self.model.users:
             exp = M.Exp("HALF", ("C02", "C03", "C19", "C06"))
             exp.need("433", p1=claim)
@@ -381,6 +388,11 @@ class World:
         except wire.Timeout:
             raise Inconclusive("half-open connection got no answer")
         return self.finish_step(cid, exp, lines, pre, None)
+
+    def _mask_refuses(self, nick, user):
+        from . import glob
+        cu = self.model.cfg.users.get(user)
+        return bool(cu and cu[1] and not glob.match(cu[1], "%s!~%s@%s" % (nick, user, self.model.host)))
 
     def half_probe(self, cid, line):
         """a command by a connection that was never welcomed (it may have claimed a nickname, it may have been
@@ -442,7 +454,9 @@ class World:
                 got = getattr(ex, "lines", [])
                 if any(m.verb == "451" for m in got):
                     # the server answered - but treats a registered client as unregistered
-                    self.violate("registered-client-gated", exp.props | {"C03", "C05"}, exp.shape,
+                    # a registered client treated as unregistered: nothing it sends is delivered any more, its views and
+                    # its later clean-up are gone too - every property about registered clients' commands is concerned
+                    self.violate("registered-client-gated", exp.props | {"C01", "C02", "C03", "C04", "C05", "C06"}, exp.shape,
                                  "after %r the registered client %s is answered 451: %s"
                                  % (line, self.model.conn.get(cid, {}).get("nick"), [m.raw for m in got][:3]))
                     self.dead = True
